@@ -32,7 +32,7 @@ def equalFold (a b : String) : Bool := lowerS a == lowerS b
 /-- `regexify`: the string transformation applied to wallet and account patterns
     (with the alternation-grouping fix: the name is always wrapped in `^(?:…)$`). -/
 def regexify (name : String) : String :=
-  let name := if name.isEmpty then "(?i).*" else name
+  let name := if name.isEmpty then ".*" else name
   "(?i)^(?:" ++ name ++ ")$"
 
 /-- `regexify` as shipped at the pinned commit: anchors are not grouped around the name. -/
